@@ -141,18 +141,35 @@ func errorCodecShape(p *an.Prog) string {
 	var parts []string
 	an.Instrs(me, func(in ssa.Instruction) {
 		if call, ok := in.(*ssa.Call); ok {
-			if obj := an.CalleeObj(call.Common()); obj != nil && strings.HasPrefix(obj.Name(), "PutUint") {
+			if obj := an.CalleeObj(call.Common()); obj != nil && (strings.HasPrefix(obj.Name(), "PutUint") || strings.HasPrefix(obj.Name(), "AppendUint")) && strings.Contains(obj.FullName(), "Endian") {
+				// PutUintN into a [N/8]byte and AppendUintN onto an empty slice emit the same bytes
 				w := "?"
-				if sl, isSl := call.Common().Args[1].(*ssa.Slice); isSl {
-					if al, isAl := sl.X.(*ssa.Alloc); isAl {
-						w = types.TypeString(deref(al.Type()), nil)
+				if strings.HasPrefix(obj.Name(), "PutUint") {
+					if sl, isSl := call.Common().Args[1].(*ssa.Slice); isSl {
+						if al, isAl := sl.X.(*ssa.Alloc); isAl {
+							if at, isArr := deref(al.Type()).Underlying().(*types.Array); isArr {
+								w = fmt.Sprint(at.Len()*8) + "@0"
+							}
+						}
+					}
+				} else {
+					base := call.Common().Args[1]
+					empty := an.IsNilConst(base)
+					if sl, isSl := base.(*ssa.Slice); isSl && sl.High != nil {
+						if k, isK := an.ConstInt(sl.High); isK && k == 0 {
+							empty = true
+						}
+					}
+					if empty {
+						w = strings.TrimPrefix(obj.Name(), "AppendUint") + "@0"
 					}
 				}
 				end := "LE"
 				if strings.Contains(obj.FullName(), "bigEndian") {
 					end = "BE"
 				}
-				parts = append(parts, "enc:"+obj.Name()+"/"+end+"/"+w)
+				width := strings.TrimPrefix(strings.TrimPrefix(obj.Name(), "PutUint"), "AppendUint")
+				parts = append(parts, "enc:u"+width+"/"+end+"/"+w)
 			}
 			if call.Common().IsInvoke() && call.Common().Method.Name() == "Error" {
 				parts = append(parts, "enc:text=err.Error()")
